@@ -285,6 +285,9 @@ def run(tier, seed):
             flt = rng.choice([["-f", str(r0[12])], ["-F", str(fee)], ["-s", "L%d_%d" % ((fee >> 12) & 7, fee & 0x3F)]])
             if shared_link and i < 2:
                 flt = ["-f", str(r0[12])]
+            if stave_pair and i < 2:
+                # staves n and n+32 of one layer: the layer/stave filter must tell them apart (all six stave bits compared; seed C06-I)
+                flt = ["-s", "L%d_%d" % ((fee >> 12) & 7, fee & 0x3F)]
             jobs.append({"s": s, "kind": "filter", "link": i, "args": [mp] + flt + mode, "ranges": ranges, "flt": flt, "mode": mode,
                          "partner": (1 - i) if (shared_link and i < 2) else None})
             ap = os.path.join(tmp, "a%d_%d.raw" % (s, i))
